@@ -107,8 +107,10 @@ def write_cfg_header(cfg, path):
             raise AnalysisBroken('unknown slot @%s@ in m4ri_config.h.in' % k)
         return subst[k]
     txt = re.sub(r'@([A-Za-z0-9_]+)@', rep, tpl)
-    with open(path, 'w') as f:
+    tmp = '%s.%d.tmp' % (path, os.getpid())
+    with open(tmp, 'w') as f:
         f.write(txt)
+    os.replace(tmp, path)
 
 
 def library_units():
